@@ -23,7 +23,12 @@ PID = "C06"
 
 def layouts_for(n, tier):
     mp = max(n + 1, 4) if tier == "quick" else max(n + 4, 12)
-    return e4.factorizations(n, mp, depth=3)
+    L = e4.factorizations(n, mp, depth=3)
+    # products far beyond the run (more padding than the run is long)
+    for extra in ([2 * n + 1], [3, n], [2, 2, n]):
+        if extra not in L:
+            L.append(extra)
+    return L
 
 
 def scenario_list(tier):
